@@ -1,5 +1,6 @@
 import FrappyProofs.Lemmas.LifecycleGroups
 import FrappyProofs.Lemmas.LifecycleOnce
+import FrappyProofs.Lemmas.LifecycleParams
 import FrappyProofs.Lemmas.MultiEvent
 import FrappyModel.Generated.C15
 /-
@@ -25,7 +26,7 @@ of resolved attachments).
 -/
 namespace Frappy.Proofs.C15
 open Frappy.Lifecycle Frappy.Spec.C15 Frappy.Proofs.Lifecycle Frappy.Proofs.LifecycleInit Frappy.Proofs.LifecycleWait
-  Frappy.Proofs.LifecycleWrites Frappy.Proofs.LifecycleGroups Frappy.Proofs.LifecycleOnce
+  Frappy.Proofs.LifecycleWrites Frappy.Proofs.LifecycleGroups Frappy.Proofs.LifecycleOnce Frappy.Proofs.LifecycleParams
 
 /-- a finite graph on `mods` is acyclic: it has a topological numbering (with numbers up to the number of modules —
 the length of the longest path) -/
@@ -245,7 +246,7 @@ theorem attached_ready (cfg : Cfg) (fuel : Nat) (sched : List Act) (pick : List 
 no `startModule` is ever called -/
 theorem no_half_start (cfg : Cfg) (fuel : Nat) (sched : List Act) (pick : List Name → Nat) :
     NoHalfStart ⟨(run cfg fuel sched pick).st.modules, (run cfg fuel sched pick).st.errors,
-      (run cfg fuel sched pick).log, (run cfg fuel sched pick).st.ioDict⟩ := by
+      (run cfg fuel sched pick).log, (run cfg fuel sched pick).st.ioDict, []⟩ := by
   intro herr e he
   simp only at herr he
   rw [(run_log cfg fuel sched pick).1] at herr
@@ -264,7 +265,7 @@ def bad_attachment_reported_statement : Prop :=
     let r := run cfg fuel sched pick
     r.st.oof = false →
     (badAttachmentB cfg r.st.ioDict = true → r.st.errors ≠ []) ∧
-    NoHalfStart ⟨r.st.modules, r.st.errors, r.log, r.st.ioDict⟩
+    NoHalfStart ⟨r.st.modules, r.st.errors, r.log, r.st.ioDict, []⟩
 
 /-- full statement, against the module list of the *configuration*.  (The two well-formedness hypotheses are what a
 Python `dict` guarantees — module names and parameter names are keys; without them the clause is false for trivial
@@ -273,7 +274,7 @@ def writes_before_first_poll_statement : Prop :=
   ∀ (cfg : Cfg) (fuel : Nat) (sched : List Act) (pick : List Name → Nat),
     let r := run cfg fuel sched pick
     r.st.oof = false → r.st.errors = [] →
-    (names (allMods cfg r.st.ioDict)).Nodup → (∀ c ∈ allMods cfg r.st.ioDict, c.writes.Nodup) →
+    (names (allMods cfg r.st.ioDict)).Nodup → (∀ c ∈ allMods cfg r.st.ioDict, (c.params.map (·.name)).Nodup) →
     WritesBeforeFirstPoll ((allMods cfg r.st.ioDict).filter (fun c => r.st.modules.contains c.name)) r.log
 
 /-- "configured start values are written before the first poll", order part, **full**: in the whole life of the node —
@@ -308,12 +309,104 @@ theorem writes_before_first_poll_partial (cfg : Cfg) (fuel : Nat) (sched : List 
   rw [run_write_count cfg fuel sched pick herr (uniqueOwner_of_groupsOk _ hG) t m p ht hm
     (members_nodup_of_groupsOk _ hG t), hp]
 
+/-- `Module._handle_writes` registers **exactly** the configured start values: for every module description, `writeDict`
+holds, in the order of the parameters, the start value (`value` of the configuration, else the `value` argument of the
+declaration) of every parameter that has one — whatever the declared or configured default is, equal to the start value
+or not — and nothing else; so the parameters for which `writeInitParams` calls a write method of the driver are the
+Spec's `startParams`.  (The class of seeded change C15-m9: a start value equal to the default is not registered.) -/
+theorem handle_writes_registers_start_values (c : ModCfg) :
+    writeDict c = c.params.filterMap (fun q => (startValue q).map (fun v => (q.name, v))) ∧
+    c.writes = startParams c := by
+  have hv : ∀ q : PCfg, q.value = startValue q := by
+    intro q; unfold PCfg.value startValue; cases q.cfgValue <;> rfl
+  have hh : ∀ q : PCfg, handleWrites q = (startValue q).map (fun v => (q.name, v)) := by
+    intro q
+    unfold handleWrites hasWriteAttr
+    rw [hv]
+    cases startValue q <;> simp
+  have hf : handleWrites = fun q => (startValue q).map (fun v => (q.name, v)) := funext hh
+  refine ⟨by unfold writeDict; rw [hf], ?_⟩
+  unfold ModCfg.writes startParams
+  simp only [hh, Option.isSome_map]
+
+/-- every combination of declared / configured default and value, start value equal to the default included -/
+def hwM : ModCfg := { (default : ModCfg) with name := "m", params := [
+  { name := "a", clsDefault := some 3, cfgValue := some 3 },                       -- configured value = declared default
+  { name := "b", clsDefault := some 0, clsValue := some 0 },                       -- declared value = declared default
+  { name := "c", clsDefault := some 1, cfgDefault := some 2, cfgValue := some 2 }, -- = configured default
+  { name := "d", clsDefault := some 1, cfgDefault := some 2 },                     -- only defaults: not a start value
+  { name := "e", clsValue := some 4, cfgValue := some 5 },                         -- the configuration wins
+  { name := "f", hasWrite := false, cfgValue := some 7 },                          -- no method of the driver to call
+  { name := "g", clsDefault := none }] }                                           -- nothing given at all
+
+example : writeDict hwM = [("a", 3), ("b", 0), ("c", 2), ("e", 5), ("f", 7)] ∧ startParams hwM = ["a", "b", "c", "e"] ∧
+    hwM.writes = ["a", "b", "c", "e"] := by
+  decide
+
+/-- the value a `write_` method is handed at start-up is the configured start value of that parameter: in every state
+of the node and for every log, for the module objects whose parameter names are distinct (keys of a `dict`) -/
+theorem start_values_handed_over_objects (st : St) (log : List Ev) (ms : List Name)
+    (hnd : ∀ m ∈ ms, ((cfgOf st m).params.map (·.name)).Nodup) :
+    StartValuesHandedOver (ms.map (objOf st)) (writtenOf st log) := by
+  intro c hc q hq hw v hv w hwm h1 h2
+  obtain ⟨m, hm, rfl⟩ := List.mem_map.mp hc
+  obtain ⟨e, _, he⟩ := List.mem_filterMap.mp hwm
+  cases e with
+  | write m' p => ?_
+  | _ => simp at he
+  replace he : Option.map (fun v => (m', p, v)) (List.lookup p (writeDict (objOf st m'))) = some w := he
+  cases hl : List.lookup p (writeDict (objOf st m')) with
+  | none => rw [hl] at he; cases he
+  | some v' =>
+    rw [hl] at he
+    simp only [Option.map_some, Option.some.injEq] at he
+    subst he
+    simp only at h1 h2
+    have hmm : m' = m := h1
+    subst hmm
+    -- the entry of writeDict comes from a parameter with that name; names are distinct: it is `q`
+    have hmem : (p, v') ∈ writeDict (objOf st m') := by
+      have := List.lookup_eq_some_iff.mp hl
+      obtain ⟨l1, l2, hsplit, _⟩ := this
+      rw [hsplit]; simp
+    obtain ⟨q', hq', hh⟩ := List.mem_filterMap.mp hmem
+    have hq2 : q ∈ (cfgOf st m').params := hq
+    have hq2' : q' ∈ (cfgOf st m').params := hq'
+    have hname : q'.name = p := by
+      unfold handleWrites at hh
+      split at hh
+      · cases hh
+      · split at hh
+        · simp only [Option.some.injEq, Prod.mk.injEq] at hh; exact hh.1
+        · cases hh
+    have heq : q' = q := by
+      have hN := hnd m' hm
+      have hnq : q'.name = q.name := by rw [hname]; exact h2
+      exact nodup_map_inj (·.name) _ hN q' hq2' q hq2 hnq
+    subst heq
+    unfold handleWrites at hh
+    have hval : q'.value = startValue q' := by
+      unfold PCfg.value startValue
+      cases q'.cfgValue <;> rfl
+    rw [hval] at hh
+    have hv' : startValue q' = some v := by simpa using hv
+    rw [hv'] at hh
+    simp only [hasWriteAttr, if_true, Option.some.injEq, Prod.mk.injEq] at hh
+    exact hh.2.symm
+
+example : writtenOf { mcfg := [hwM] } [Ev.write "m" "a", Ev.initread "m", Ev.write "m" "e"] = [("m", "a", 3), ("m", "e", 5)] ∧
+    ((cfgOf { mcfg := [hwM] } "m").params.map (·.name)).Nodup := by
+  decide
+
+/-- ... and a `write_` method handed the default instead of the configured value breaks the clause -/
+example : ¬ StartValuesHandedOver [hwM] [("m", "e", 0)] := by decide
+
 /-- **exactly what is missing** for `writes_before_first_poll_statement`, as a hypothesis: `Linked U st` — every module
 description `c` of the list the clause is judged on has become a module object that carries `c`'s configured values
 and is registered with a poll thread that is started.  Under it the clause of the specification itself holds for the
 whole log — every schedule and choice function, any faults, communication failures included. -/
 def Linked (U : List ModCfg) (st : St) : Prop :=
-  ∀ c ∈ U, ∀ p ∈ c.writes, ∃ t ∈ threadsOf st, c.name ∈ members st t ∧ (cfgOf st c.name).writes.count p = 1
+  ∀ c ∈ U, ∀ p ∈ startParams c, ∃ t ∈ threadsOf st, c.name ∈ members st t ∧ (cfgOf st c.name).writes.count p = 1
 
 theorem writes_before_first_poll_of_linked (cfg : Cfg) (fuel : Nat) (sched : List Act) (pick : List Name → Nat)
     (herr : (run cfg fuel sched pick).st.errors = []) (U : List ModCfg)
@@ -325,8 +418,8 @@ theorem writes_before_first_poll_of_linked (cfg : Cfg) (fuel : Nat) (sched : Lis
 
 /-- the hypotheses are met by a node with a shared communicator, a failing write, a communication failure in the initial
 reads of the first member and in the first poll of the second, under a schedule that preempts the start loop -/
-def wpU : ModCfg := { (default : ModCfg) with name := "u", cls := .hasio, poll := true, writes := ["w0", "w1"], atts := [⟨"io", some "c", false, 0⟩], writeFail := [("w0", "HardwareError")], readsFail := some "CommunicationFailedError" }
-def wpV : ModCfg := { (default : ModCfg) with name := "v", cls := .hasio, poll := true, writes := ["w1"], atts := [⟨"io", some "c", false, 0⟩], pollFail := some "CommunicationFailedError" }
+def wpU : ModCfg := { (default : ModCfg) with name := "u", cls := .hasio, poll := true, params := [wp "w0", wp "w1"], atts := [⟨"io", some "c", false, 0⟩], writeFail := [("w0", "HardwareError")], readsFail := some "CommunicationFailedError" }
+def wpV : ModCfg := { (default : ModCfg) with name := "v", cls := .hasio, poll := true, params := [wp "w1"], atts := [⟨"io", some "c", false, 0⟩], pollFail := some "CommunicationFailedError" }
 def wpC : ModCfg := { (default : ModCfg) with name := "c", cls := .comm, poll := true, exported := true }
 def wpCfg : Cfg := { mods := [wpU, wpV, wpC], dyn := [] }
 
@@ -354,7 +447,7 @@ theorem write_faults_lose_no_write (c : ModCfg) :
 
 /-- hypotheses met with faults of both `except` arms, first and middle position -/
 def wfM : ModCfg :=
-  { (default : ModCfg) with name := "m", writes := ["w0", "w1", "w2"], writeFail := [("w0", "RuntimeError"), ("w1", "HardwareError")] }
+  { (default : ModCfg) with name := "m", params := [wp "w0", wp "w1", wp "w2"], writeFail := [("w0", "RuntimeError"), ("w1", "HardwareError")] }
 
 example : (writeInitParams wfM).1 =
     [Ev.write "m" "w0", Ev.write "m" "w1", Ev.write "m" "w2"] := by decide
@@ -378,8 +471,8 @@ theorem startup_sequence_complete (st : St) (t : Name)
   unfold prologue
   simp only [initLoop_ok st _ hr, pollLoop_ok st _ hp]
 
-def wfA : ModCfg := { (default : ModCfg) with name := "a", poll := true, writes := ["w0", "w1"], writeFail := [("w0", "CommunicationFailedError")], readsFail := some "KeyError" }
-def wfB : ModCfg := { (default : ModCfg) with name := "b", writes := ["w1"], pollFail := some "HardwareError" }
+def wfA : ModCfg := { (default : ModCfg) with name := "a", poll := true, params := [wp "w0", wp "w1"], writeFail := [("w0", "CommunicationFailedError")], readsFail := some "KeyError" }
+def wfB : ModCfg := { (default : ModCfg) with name := "b", params := [wp "w1"], pollFail := some "HardwareError" }
 def wfSt : St := { modules := ["a"], groups := [("a", "a"), ("a", "b")], mcfg := [wfA, wfB] }
 
 example : (∀ m ∈ members wfSt "a", readsQuiet (objOf wfSt m)) ∧
@@ -402,8 +495,8 @@ example : prologue wfSt "a" = [Ev.write "a" "w0", Ev.write "a" "w1", Ev.initread
 /-- the former finding `C15:writes_skipped_after_comm_failure` (`known_findings/C15.json`, now under `fixed`): `io` serves
 `a` and `b`; `initialReads` of `a` raises a CommunicationFailedError. -/
 def cfIo : ModCfg := { (default : ModCfg) with name := "io", cls := .comm, exported := true }
-def cfA : ModCfg := { (default : ModCfg) with name := "a", cls := .hasio, exported := true, poll := true, writes := ["w0"], atts := [⟨"io", some "io", false, 0⟩], readsFail := some "CommunicationFailedError" }
-def cfB : ModCfg := { (default : ModCfg) with name := "b", cls := .hasio, exported := true, poll := true, writes := ["w0"], atts := [⟨"io", some "io", false, 0⟩] }
+def cfA : ModCfg := { (default : ModCfg) with name := "a", cls := .hasio, exported := true, poll := true, params := [wp "w0"], atts := [⟨"io", some "io", false, 0⟩], readsFail := some "CommunicationFailedError" }
+def cfB : ModCfg := { (default : ModCfg) with name := "b", cls := .hasio, exported := true, poll := true, params := [wp "w0"], atts := [⟨"io", some "io", false, 0⟩] }
 def cfCfg : Cfg := { mods := [cfIo, cfA, cfB], dyn := [] }
 
 /-- on the model of the repaired code: the node comes up, the round is reported done at once, the configured value of `b`
@@ -414,7 +507,8 @@ theorem comm_failure_writes_made_up :
       [Ev.write "a" "w0", Ev.initread "a", Ev.comfail "a", Ev.rounddone "io", Ev.write "b" "w0", Ev.firstpoll "a",
        Ev.firstpoll "b"] ∧
     WritesBeforeFirstPoll [cfA, cfB] (run cfCfg 20 [] (fun _ => 0)).log ∧
-    judge cfCfg ⟨(run cfCfg 20 [] (fun _ => 0)).st.modules, [], (run cfCfg 20 [] (fun _ => 0)).log, []⟩ = [] := by
+    judge cfCfg ⟨(run cfCfg 20 [] (fun _ => 0)).st.modules, [], (run cfCfg 20 [] (fun _ => 0)).log, [],
+      writtenOf (run cfCfg 20 [] (fun _ => 0)).st (run cfCfg 20 [] (fun _ => 0)).log⟩ = [] := by
   decide +kernel
 
 /-- `Linked` is met by the configuration of the former finding (so `writes_before_first_poll_of_linked` gives the clause
@@ -469,7 +563,7 @@ theorem findingCfg_rejected : (startup findingCfg 10).errors ≠ [] ∧
 /-- sanity of the model on a clean configuration with a Pinata, a communicator and configured writes: the judge of
 the specification accepts the model's own run -/
 def sP : ModCfg := { (default : ModCfg) with name := "p", cls := .pinata, scan := ["d0"] }
-def sU : ModCfg := { (default : ModCfg) with name := "u", cls := .hasio, poll := true, writes := ["w0"], atts := [⟨"a2", some "v", true, 0⟩, ⟨"io", some "c", false, 0⟩] }
+def sU : ModCfg := { (default : ModCfg) with name := "u", cls := .hasio, poll := true, params := [wp "w0"], atts := [⟨"a2", some "v", true, 0⟩, ⟨"io", some "c", false, 0⟩] }
 def sV : ModCfg := { (default : ModCfg) with name := "v", exported := true }
 def sC : ModCfg := { (default : ModCfg) with name := "c", cls := .comm, poll := true, exported := true }
 def sD : ModCfg := { (default : ModCfg) with name := "d0", poll := true, atts := [⟨"a0", some "u", true, 0⟩], touchInit := ["a0"] }
@@ -478,7 +572,9 @@ def sampleCfg : Cfg := { mods := [sP, sU, sV, sC], dyn := [sD] }
 theorem sample_run_accepted :
     (run sampleCfg 20 [.main, .main, .step "c"] (fun _ => 1)).st.errors = [] ∧
     judge sampleCfg ⟨(run sampleCfg 20 [.main, .main, .step "c"] (fun _ => 1)).st.modules, [],
-      (run sampleCfg 20 [.main, .main, .step "c"] (fun _ => 1)).log, []⟩ = [] := by
+      (run sampleCfg 20 [.main, .main, .step "c"] (fun _ => 1)).log, [],
+      writtenOf (run sampleCfg 20 [.main, .main, .step "c"] (fun _ => 1)).st
+        (run sampleCfg 20 [.main, .main, .step "c"] (fun _ => 1)).log⟩ = [] := by
   decide +kernel
 
 /-- the model never polls after a shutdown and leaves no poll thread behind (the clause is there for the
